@@ -712,7 +712,9 @@ class PeerConnection(DataConnection):
             of data is received
         """
         bytes_received = 0
-        while True:
+        # Check if all data is received before each read: when there is nothing
+        # (left) to receive no data will ever arrive
+        while bytes_received < filesize:
             bytes_to_read = await self.download_rate_limiter.take_tokens()
             data = await self.receive_data(bytes_to_read)
             if data is None:
@@ -722,10 +724,7 @@ class PeerConnection(DataConnection):
             if callback is not None:
                 callback(data)
 
-            # Check if all data received and return
             bytes_received += len(data)
-            if bytes_received >= filesize:
-                return
 
     async def send_data(self, data: bytes):
         await self._send(data, timeout=TRANSFER_TIMEOUT)
